@@ -9,6 +9,7 @@ mod r_c01;
 mod r_c03;
 mod r_c04;
 mod r_c05;
+mod r_c11;
 mod r_c12;
 mod r_c14;
 mod r_c16;
@@ -75,6 +76,16 @@ fn main() {
         std::process::exit(2);
     }
     let harness = args[1].clone();
+    if harness == "c11_batch" {
+        r_c11::batch(&args[2]);
+        return;
+    }
+    if harness.starts_with("c11_") {
+        let vals: Vec<u8> = args[2].split(',').filter_map(|x| x.trim().parse::<u64>().ok()).map(|x| x as u8).collect();
+        let out = r_c11::witness(&harness, &vals);
+        print(&out, &vals);
+        return;
+    }
     if args[2] == "search" {
         // exhaustive native search for a reproducing assignment of the scenario's draws
         let mut src = shared::src_trait::EnumSrc::new();
